@@ -205,8 +205,31 @@ func verifSchemaSB() *schema.BodySchema {
 	}
 }
 
+// SH: schemas with legal holes (they pass Validate): a block schema without Body, labels shorter
+// than written, a dependent body whose nested block has no Body under DynamicBlocks, nil maps.
+func verifSchemaSH() *schema.BodySchema {
+	return &schema.BodySchema{
+		Blocks: map[string]*schema.BlockSchema{
+			"nobody": {},
+			"nobodylbl": {Labels: []*schema.LabelSchema{{Name: "l", IsDepKey: true}}},
+			"dyn": {
+				Labels: []*schema.LabelSchema{{Name: "type", IsDepKey: true}},
+				Body:   &schema.BodySchema{Extensions: &schema.BodyExtensions{DynamicBlocks: true}},
+				DependentBody: map[schema.SchemaKey]*schema.BodySchema{
+					schema.NewSchemaKey(schema.DependencyKeys{Labels: []schema.LabelDependent{{Index: 0, Value: "a"}}}): {
+						Blocks: map[string]*schema.BlockSchema{"inner": {}},
+					},
+				},
+			},
+			"onlybody": {Body: &schema.BodySchema{}},
+		},
+	}
+}
+
 func verifSchemas(i int) *schema.BodySchema {
 	switch i {
+	case 3:
+		return verifSchemaSH()
 	case 1:
 		return verifSchemaS1()
 	case 2:
@@ -313,6 +336,13 @@ func verifSeedList() []verifSeed {
 		{"call-trailing-comma", "anum = f2( 1, )\n", 0},
 		{"call-too-many", "astr = f1( \"a\", \"b\" )\n", 0},
 		{"call-noparams", "astr = f0( )\n", 0},
+		// SH: schemas with legal holes
+		{"nobody", "nobody {\n}\n", 3},
+		{"nobody-attr", "nobody {\n  x = 1\n}\n", 3},
+		{"nobodylbl", "nobodylbl \"a\" {\n  y = 2\n}\n", 3},
+		{"dyn-a", "dyn \"a\" {\n  inner {\n    z = 1\n  }\n}\n", 3},
+		{"dyn-b", "dyn \"b\" {\n}\n", 3},
+		{"onlybody", "onlybody {\n  q = 1\n  r {\n  }\n}\n", 3},
 		// SB
 		{"res-aws", "res \"aws\" \"a\" {\n  marker = \"x\"\n  size = 1\n}\n", 2},
 		{"res-aws-rule", "res \"aws\" \"a\" {\n  size = 1\n  rule {\n    port = 80\n  }\n}\n", 2},
